@@ -395,6 +395,7 @@ func (e *Engine) dischargePath(fn *ssa.Function, po *pathOutcome, pathNo int, w 
 			// obtain a model of the complete query (all assumptions, all inputs)
 			be := bes[p.be]
 			q := BuildQuery(x.ts, be, ob.ID, ob.Path, ob.Cond, x.inputs, verdict.Profile)
+			dump(ob, be, q, 9000+p.idx)
 			full := <-opts.Pool.Submit([]string{q.Script}, q.Vars, budgets)
 			r.Verdict = "unconfirmed"
 			if ob.Kind == "range" {
